@@ -196,6 +196,9 @@ class DataFrameSchemaBackend(PandasSchemaBackend):
         lazy: bool,
     ) -> List[CoreCheckResult]:
         """Run checks for all schema components."""
+        # pylint: disable=import-outside-toplevel,cyclic-import
+        from pandera.api.pandas.components import Column
+
         check_results = []
         check_passed = []
         # schema-component-level checks
@@ -206,8 +209,11 @@ class DataFrameSchemaBackend(PandasSchemaBackend):
             _orig_coerce = schema_component.coerce
 
             try:
-                if schema.dtype is not None:
-                    # override column dtype with dataframe dtype
+                if schema.dtype is not None and isinstance(
+                    schema_component, Column
+                ):
+                    # override column dtype with dataframe dtype (the index
+                    # keeps the data type it declares)
                     schema_component.dtype = schema.dtype  # type: ignore
 
                 # disable coercion at the schema component level since the
